@@ -10,7 +10,8 @@
    Statements only. *)
 From Compio.Model Require Import Base Wake.
 From Compio.Gen Require Import Consts.
-From Compio.Thm Require Import WakeThm.
+From Compio.Model Require Import RunC03.
+From Compio.Thm Require Import WakeThm WakeAcceptThm.
 Local Open Scope nat_scope.
 
 (* In every reachable state: if some waker thread has completed a wake (of a
@@ -146,3 +147,18 @@ Lemma C03_spin_wake_refuted :
             pc (r s) = RWait /\ queue (e s) = [(1, 1)] /\ flag (d s) = AWAKE_IDLE.
 Proof. exact spin_wake_refuted. Qed.
 Print Assumptions C03_spin_wake_refuted.
+
+(* the acceptor of ./check C03 (model/RunC03.v, [dstep]) is the restriction of
+   this LTS to the driver-level variables: every run, projected to the hook
+   events its steps emit ([trace], in the order of the atomic operations), is
+   accepted, and the acceptor's state stays the projection of the LTS state
+   (same flag, same NEED_PUSH_NOTIFIER, the driver thread's position in poll /
+   flush, exactly the waker threads that still owe the notifier write) *)
+Theorem C03_model_runs_accepted : forall cf n tg ls s,
+  targets_ok n tg -> steps (init cf n tg) ls = Some s ->
+  exists x, dsteps (uring cf) dinit (trace (init cf n tg) ls) = Some x /\
+            dflag x = flag (d s) /\ dneed x = need_push (d s) /\
+            (forall i, mem (tid i) (owing x) = true <->
+                       exists w, nth_error (wk s) i = Some w /\ is_write (wp w) = true).
+Proof. exact model_runs_accepted. Qed.
+Print Assumptions C03_model_runs_accepted.
